@@ -3,7 +3,9 @@
 
 spec/Aggregation.tla (TLC, exhaustive within bounds: the reference Agg, the Map/Reduce objects of
 pkg/query/aggregation/function.go transcribed as coded, the partition law with empty blocks, replica answers counted
-once, group-by over two keys, the bounded top-N heap) -> every state of the three TLC state graphs is rebuilt step by
+once, group-by over two keys, the bounded top-N heap; family "ord": entity (k1,k2), every ARRIVAL order of the points,
+GROUP BY k1 / k2 / (k1,k2) with the method Analyze picks over the scan order it asks for, client pages (limit, offset)
+and TOP-n through data nodes that are sent a limit) -> every state of the four TLC state graphs is rebuilt step by
 step on the real code (harness c10) at three layers: the aggregation package (int64 and float64), the row plans exactly as
 the data node / the coordinator build them (Analyze / DistributedAnalyze; only the storage scan and the transport are
 stand-ins), and the columnar twins (BatchAggregation All/Map/Reduce, frames, BatchTop)."""
@@ -23,13 +25,17 @@ c.setup()
 binp = c.gobuild('c10')
 
 NAMES = ('Family Vals Shards K1 K2 MaxRows MaxRep Grouped TopVals MaxItems MaxN IntMax IntMin '
-         'MeanFloorsAtOne ScalarShardZero ConcatGroupKey').split()
+         'MeanFloorsAtOne ScalarShardZero ConcatGroupKey Pages StreamOnPrefix NodePageIsClientPage').split()
 INTMAX = 1000000
 BASE = dict(Family='"agg"', Vals='-3..3', Shards='{0, 1, 2}', K1='<<"a">>', K2='<<"c">>', MaxRows=4, MaxRep=2, Grouped='FALSE',
             TopVals='-3..3', MaxItems=0, MaxN=3, IntMax=INTMAX, IntMin=-INTMAX,
-            MeanFloorsAtOne='FALSE', ScalarShardZero='FALSE', ConcatGroupKey='FALSE')
+            MeanFloorsAtOne='FALSE', ScalarShardZero='FALSE', ConcatGroupKey='FALSE',
+            Pages='{}', StreamOnPrefix='FALSE', NodePageIsClientPage='FALSE')
 AGG_INV = ['RefMeanValid', 'DirectEqualsReference', 'PartitionLaw', 'ReplicasCountOnce', 'GroupsAreKeyTuples', 'GroupedLaw']
 SCALAR_INV = AGG_INV[:4]  # one group only: the grouped laws coincide with the scalar ones
+ORD_INV = ['GroupMethodLaw', 'PageLaw']
+# family "ord": rankings (TOP/BOTTOM m) executed per state and client page: one seeded choice (quick), all (thorough)
+ORD_RANKS = 1 if c.quick else 0
 # adversarial concretisation of the group-key tokens: ("a","bc") and ("ab","c") concatenate to the same bytes
 K1, K2 = ['a', 'ab'], ['c', 'bc']
 
@@ -93,8 +99,9 @@ def last_rows(out):
 
 
 def harness_args(mode, consts):
-    return ['-mode', mode, '-k1', ','.join(K1 if consts.get('Grouped') == 'TRUE' else ['a']), '-k2', ','.join(K2 if consts.get('Grouped') == 'TRUE' else ['c']),
-            '-maxrep', str(consts['MaxRep']), '-intmax', str(INTMAX), '-intmin', str(-INTMAX)]
+    keyed = consts.get('Grouped') == 'TRUE' or mode == 'ord'
+    return ['-mode', mode, '-k1', ','.join(K1 if keyed else ['a']), '-k2', ','.join(K2 if keyed else ['c']),
+            '-maxrep', str(consts['MaxRep']), '-intmax', str(INTMAX), '-intmin', str(-INTMAX)] + (['-ranks', str(ORD_RANKS)] if mode == 'ord' else [])
 
 
 if c.replay:
@@ -118,15 +125,26 @@ if c.quick:
         'scalar': ('agg', dict(Vals='-2..2', Shards='{0, 1, 2}', MaxRows=4), SCALAR_INV),
         'group': ('agg', dict(Vals='{-2, 0, 3}', Shards='{0, 1}', K1=tla_strs(K1), K2=tla_strs(K2), MaxRows=3, Grouped='TRUE', MaxN=2), AGG_INV),
         'top': ('top', dict(Family='"top"', TopVals='-3..3', MaxItems=4, MaxN=3), ['TopNLaw']),
+        # entity (k1,k2); every arrival order of up to 3 points; pages <<limit, offset>>: a node with 2 (3) groups holds
+        # more groups than limit+offset = 1 (2)
+        'ord': ('ord', dict(Family='"ord"', Vals='{-2, 3}', Shards='{0, 1}', K1=tla_strs(K1), K2=tla_strs(K2), MaxRows=3, MaxN=2,
+                            Pages='{<<1, 0>>, <<1, 1>>}'), ORD_INV),
     }
 else:
     fam = {
         'scalar': ('agg', dict(Vals='-3..3', Shards='{0, 1, 2}', MaxRows=5), SCALAR_INV),
         'group': ('agg', dict(Vals='{-3, -1, 0, 2}', Shards='{0, 1}', K1=tla_strs(K1), K2=tla_strs(K2), MaxRows=4, Grouped='TRUE', MaxN=3), AGG_INV),
         'top': ('top', dict(Family='"top"', TopVals='-3..3', MaxItems=5, MaxN=3), ['TopNLaw']),
+        'ord': ('ord', dict(Family='"ord"', Vals='{-2, 3}', Shards='{0, 1}', K1=tla_strs(K1), K2=tla_strs(K2), MaxRows=4, MaxN=2,
+                            Pages='{<<1, 0>>, <<1, 1>>, <<2, 0>>, <<2, 1>>}'), ORD_INV),
     }
+FAMILIES = ('scalar', 'group', 'top', 'ord')
 
 
+# several TLC instances run side by side: a bounded heap and few collector threads each (the default - a quarter of
+# the machine's memory and one collector thread per core, per JVM - costs more than the model checking itself); the
+# short runs of the quick tier do not pay for the optimising JIT
+TLC_JVM = dict(heap='2g' if c.quick else '4g', java_opts=['-XX:ParallelGCThreads=2'] + (['-XX:TieredStopAtLevel=1'] if c.quick else []))
 launch = threading.Lock()
 
 
@@ -141,7 +159,7 @@ def explore(name):
     """TLC on one family, then every state of its graph replayed on the real code."""
     mode, consts, invs = fam[name]
     mod, files, d = model(name.capitalize(), consts, invs)
-    r = tlc.run(mod + '.tla', mod + '.cfg', tag='c10' + name, files=files, dump=True, workers=5, timeout=1500)
+    r = tlc.run(mod + '.tla', mod + '.cfg', tag='c10' + name, files=files, dump=True, workers=5, timeout=1500, **TLC_JVM)
     if r.violated or r.error or r.timed_out or not r.ok:
         return name, r, d, None, None, 'TLC on Aggregation.tla (%s): violated=%s error=%s timeout=%s\n%s' % (name, r.violated, r.error, r.timed_out, r.output[-1500:])
     nodes, edges, inits = tlc.graph(r)
@@ -158,17 +176,24 @@ def explore(name):
 
 # the three named deviations of the pinned code: with each switched on TLC must find the counterexample (this shows the
 # invariants are not vacuous and documents the spec-level shape of what the replay may find)
+# ... and the two planner decisions of family "ord" with their named wrong alternative
+ORD_QUIRKS = ('StreamOnPrefix', 'NodePageIsClientPage')
+
+
 def quirk(q):
-    mod, files, d = model('Q' + q, dict(Vals='{-2, 0, 3}', Shards='{0, 1}', K1=tla_strs(K1), K2=tla_strs(K2), MaxRows=3, Grouped='TRUE', MaxN=1, **{q: 'TRUE'}), AGG_INV)
-    return q, tlc.run(mod + '.tla', mod + '.cfg', tag='c10q' + q, files=files, workers=2, timeout=600)
+    if q in ORD_QUIRKS:
+        mod, files, d = model('Q' + q, dict(fam['ord'][1], MaxRows=3, **{q: 'TRUE'}), ORD_INV)
+    else:
+        mod, files, d = model('Q' + q, dict(Vals='{-2, 0, 3}', Shards='{0, 1}', K1=tla_strs(K1), K2=tla_strs(K2), MaxRows=3, Grouped='TRUE', MaxN=1, **{q: 'TRUE'}), AGG_INV)
+    return q, tlc.run(mod + '.tla', mod + '.cfg', tag='c10q' + q, files=files, workers=2, timeout=600, **TLC_JVM)
 
 
 # ---- 3. int64 extremes: metamorphic, outside the bounded TLC domain ----
 nx = 3000 if c.quick else 30000
 
-with cf.ThreadPoolExecutor(8) as ex:
-    fut_fam = [ex.submit(explore, n) for n in ('scalar', 'group', 'top')]
-    fut_q = [ex.submit(quirk, q) for q in ('MeanFloorsAtOne', 'ScalarShardZero', 'ConcatGroupKey')]
+with cf.ThreadPoolExecutor(10) as ex:
+    fut_fam = [ex.submit(explore, n) for n in FAMILIES]
+    fut_q = [ex.submit(quirk, q) for q in ('MeanFloorsAtOne', 'ScalarShardZero', 'ConcatGroupKey') + ORD_QUIRKS]
     fut_x = ex.submit(harness, ['-mode', 'extremes', '-n', str(nx), '-maxrep', '2'], 900)
     fam_out = [f.result() for f in fut_fam]
     quirk_out = [f.result() for f in fut_q]
@@ -185,7 +210,7 @@ for name, r, d, b, res, err in fam_out:
     states += r.distinct
     transitions += r.generated
     tlc_stats[name] = dict(distinct=r.distinct, generated=r.generated, depth=r.depth, wall_s=round(r.wall, 1), behaviours=len(b),
-                           constants={k: d[k] for k in ('Vals', 'Shards', 'K1', 'K2', 'MaxRows', 'MaxRep', 'TopVals', 'MaxItems', 'MaxN')})
+                           constants={k: d[k] for k in ('Vals', 'Shards', 'K1', 'K2', 'MaxRows', 'MaxRep', 'TopVals', 'MaxItems', 'MaxN', 'Pages')})
     c.log('replayed %s: %d behaviours, %d states compared, %d mismatches %s' % (
         name, res['behaviours'], res['stats'].get('states_compared', 0), res['stats'].get('violations_total', 0),
         sorted(k[4:] for k in res['stats'] if k.startswith('sig:'))))
@@ -227,7 +252,8 @@ for name, v in all_viol:
 
 # ---- 5. binding self-test: a corrupted expectation must be rejected by the replayer ----
 selftest = {}
-for name, path, mut in (('scalar', ('obs', 'sres', 'r', 0), 1), ('group', ('obs', 'gparts', 0, 'p', 2, 0), 1), ('top', ('obs', 0, 'vals', 0), 1)):
+for name, path, mut in (('scalar', ('obs', 'sres', 'r', 0), 1), ('group', ('obs', 'gparts', 0, 'p', 2, 0), 1), ('top', ('obs', 0, 'vals', 0), 1),
+                        ('ord', ('obs', 'bys', 0, 'groups', 0, 'res', 'r', 0), 1)):
     cand = [b for b in behs[name] if len(b) >= 3 and 'obs' in b[-1]]
     b = copy.deepcopy(cand[len(cand) // 2])
     x = b[-1]
@@ -235,7 +261,7 @@ for name, path, mut in (('scalar', ('obs', 'sres', 'r', 0), 1), ('group', ('obs'
         x = x[k]
     x[path[-1]] += mut
     f3 = c.write_behaviours('selftest', [b])
-    r3 = c.run_harness(binp, args_of[name] + ['-in', f3, '-layers', 'pkg'])
+    r3 = c.run_harness(binp, args_of[name] + ['-in', f3, '-layers', 'plan' if name == 'ord' else 'pkg'])
     os.remove(f3)
     selftest[name] = bool(r3['violations'])
 if not all(selftest.values()):
@@ -247,26 +273,46 @@ for name, res in list(results.items()) + [('extremes', xres)]:
     for k, v in res['stats'].items():
         if not k.startswith('sig:'):
             stats[k] = stats.get(k, 0) + v
-allb = behs['scalar'] + behs['group'] + behs['top']
 nontriv = core.nontrivial_count(
-    behs['scalar'] + behs['group'],
+    behs['scalar'] + behs['group'] + behs['ord'],
     lambda st: len({s['last'].get('s') for s in st[1:]}) >= 2 and len({s['last'].get('v') for s in st[1:]}) >= 2)
 sample_s = behs['scalar'][len(behs['scalar']) // 2]
 sample_g = behs['group'][len(behs['group']) // 3]
 sample_t = behs['top'][len(behs['top']) // 2]
+sample_o = behs['ord'][len(behs['ord']) // 3]
+# non-vacuity of family "ord", measured by the harness: the plans really executed
+ordc = {k: v for k, v in stats.items() if k.startswith('ord_')}
+ord_cov = dict(
+    entity2_groupby_plans_by_method={k[len('ord_entity2_groupby_plans:'):]: v for k, v in ordc.items() if k.startswith('ord_entity2_groupby_plans:')},
+    entity2_prefix_groupby_plans=sum(v for k, v in ordc.items() if k.startswith('ord_entity2_groupby_plans:k1:')),
+    entity2_prefix_groupby_plans_same_prefix_series_not_adjacent=ordc.get('ord_entity2_prefix_groupby_plans_nonadjacent', 0),
+    states_where_series_order_cuts_a_group={k[len('ord_states_series_order_cuts_groups:'):]: v for k, v in ordc.items() if k.startswith('ord_states_series_order_cuts_groups:')},
+    entity2_distributed_groupby_plans={k[len('ord_entity2_distributed_groupby_plans:'):]: v for k, v in ordc.items() if k.startswith('ord_entity2_distributed_groupby_plans:')},
+    limited_distributed_groupby_plans=ordc.get('ord_limited_distributed_groupby_plans', 0),
+    limited_distributed_groupby_plans_node_holds_more_groups_than_page=ordc.get('ord_limited_distributed_groupby_plans_node_holds_more_groups_than_page', 0),
+    limited_distributed_top_plans=ordc.get('ord_limited_distributed_top_plans', 0),
+    limited_distributed_top_plans_node_holds_more_groups_than_page=ordc.get('ord_limited_distributed_top_plans_node_holds_more_groups_than_page', 0),
+    node_requests_unbounded=ordc.get('ord_node_requests_unbounded', 0), node_requests_bounded=ordc.get('ord_node_requests_bounded', 0))
+# the extended coverage must not be vacuous (these are counts of executed plans, no verdict on the code)
+for k in ('entity2_prefix_groupby_plans_same_prefix_series_not_adjacent', 'limited_distributed_groupby_plans_node_holds_more_groups_than_page',
+          'limited_distributed_top_plans_node_holds_more_groups_than_page'):
+    if not ord_cov[k]:
+        c.inconclusive('family "ord" is vacuous: %s = 0' % k)
+c.log('family ord: %s' % json.dumps(ord_cov))
 c.cov.update(
     states=states, transitions=transitions, traces_validated_against_impl=0,
     behaviours_replayed=sum(r['behaviours'] for r in results.values()), steps_replayed=sum(r['steps'] for r in results.values()),
     states_compared=stats.get('states_compared', 0), exhaustive=True,
     evaluations=stats.get('states_compared', 0) + stats.get('extreme_cases', 0), distinct_nontrivial=nontriv,
-    rule='every state of the three TLC state graphs (trees: one behaviour per leaf, every state compared once) is rebuilt on the real code; '
+    rule='every state of the four TLC state graphs (trees: one behaviour per leaf, every state compared once) is rebuilt on the real code; '
          'non-trivial = rows in at least two shards with at least two distinct values; distinct by full state sequence',
-    tlc=tlc_stats, harness_stats=stats, extreme_cases=stats.get('extreme_cases', 0),
+    tlc=tlc_stats, harness_stats=stats, family_ord=ord_cov, extreme_cases=stats.get('extreme_cases', 0),
     spec_deviation_counterexamples=quirks, binding_selftest_rejected=all(selftest.values()), binding_selftest=selftest,
     signatures={n: sorted(k[4:] for k in r['stats'] if k.startswith('sig:')) for n, r in list(results.items()) + [('extremes', xres)]},
     samples=[{'family': 'scalar', 'steps': [s['last'] for s in sample_s[1:]], 'obs': sample_s[-1].get('obs')},
              {'family': 'group', 'steps': [s['last'] for s in sample_g[1:]], 'obs': sample_g[-1].get('obs')},
-             {'family': 'top', 'steps': [s['last'] for s in sample_t[1:]], 'obs': sample_t[-1].get('obs')}],
+             {'family': 'top', 'steps': [s['last'] for s in sample_t[1:]], 'obs': sample_t[-1].get('obs')},
+             {'family': 'ord', 'steps': [s['last'] for s in sample_o[1:]], 'obs': sample_o[-1].get('obs')}],
 )
 c.assumptions += [
     'the storage scan (MeasureExecutionContext.Query) and the transport (Broadcast) are stand-ins: a node is the real data-node plan over the rows of one shard replica; replicas of a shard hold the same rows',
@@ -274,6 +320,9 @@ c.assumptions += [
     'MEAN of an integer field: either integer neighbour of the exact mean is accepted (rounding direction is not documented)',
     'top-N ties: any tie-valid choice is accepted (values in order must match, identities must be consistent and distinct)',
     'float64: only integral values (exactly representable sums); the float mean is the correctly rounded quotient',
+    'family "ord": the position of a series in the series-index answer (index.OrderByTypeSeries) is taken to be its creation order (first arrival); '
+    'time order is arrival order; a data node plans the request it is sent unchanged (limit and offset included), as measureInternalQueryProcessor.Rev does',
+    'a client page (limit, offset) over groups without ranking: any PageSize distinct groups are accepted, each must carry the reference value over all its rows',
     'group keys are concretised adversarially (a|bc vs ab|c); 64-bit hash collisions of group keys are not searched for',
     'TLC bounds: %s' % json.dumps({k: v['constants'] for k, v in tlc_stats.items()}),
 ]
